@@ -1850,16 +1850,6 @@ class RedunBackendDb(RedunBackend):
 
         with self.with_session() as session:
             if not session.query(CallNode).filter_by(call_hash=call_hash).first():
-                session.add(
-                    CallNode(
-                        call_hash=call_hash,
-                        task_name=task_name,
-                        task_hash=task_hash,
-                        args_hash=args_hash,
-                        value_hash=result_hash,
-                    )
-                )
-
                 # Record CallEdges only if child was recorded (might not be if prov=False).
                 recorded_child_hashes = {
                     call_hash
@@ -1869,18 +1859,36 @@ class RedunBackendDb(RedunBackend):
                         child_call_hashes,
                     )
                 }
+
+                # Recording a value commits. Record all values first, so that the CallNode
+                # becomes durable only together with its edges, arguments and subtree tasks.
+                # Otherwise an interruption could leave a CallNode without them, and the
+                # existence check above would prevent them from ever being recorded.
+                subtree_tasks = list(subtree_tasks)
+                for eval_arg in chain(eval_args[0], eval_args[1].values()):
+                    self.record_value(eval_arg)
+
+                # If child nodes were not recorded, then their tasks might not be recorded either.
+                if recorded_child_hashes < set(child_call_hashes):
+                    for task in subtree_tasks:
+                        self.record_value(task)
+
+                session.add(
+                    CallNode(
+                        call_hash=call_hash,
+                        task_name=task_name,
+                        task_hash=task_hash,
+                        args_hash=args_hash,
+                        value_hash=result_hash,
+                    )
+                )
                 for i, child_call_hash in enumerate(child_call_hashes):
                     if child_call_hash in recorded_child_hashes:
                         session.add(
                             CallEdge(parent_id=call_hash, child_id=child_call_hash, call_order=i)
                         )
 
-                self._record_args(call_hash, expr_args, eval_args)
-
-                # If child nodes were not recorded, then their tasks might not be recorded either.
-                if recorded_child_hashes < set(child_call_hashes):
-                    for task in subtree_tasks:
-                        self.record_value(task)
+                self._record_args(call_hash, expr_args, eval_args, commit=False)
 
                 # Record call subtree tasks.
                 for task in subtree_tasks:
@@ -1929,6 +1937,7 @@ class RedunBackendDb(RedunBackend):
         call_hash: str,
         expr_args: tuple[tuple, dict],
         eval_args: tuple[tuple, dict],
+        commit: bool = True,
     ) -> None:
         """
         Record the Arguments for a CallNode.
@@ -1988,7 +1997,8 @@ class RedunBackendDb(RedunBackend):
                         )
                     )
 
-            session.commit()
+            if commit:
+                session.commit()
 
     @db_retry
     def record_call_node_context(
